@@ -73,6 +73,24 @@ func runPendingParent(rep *emit.Report, seed int64, tier string) {
 			rep.Distribution["concurrent/requests-completed"] += n
 		}
 	}
+	for _, l := range strings.Split(out.String(), "\n") {
+		switch {
+		case strings.HasPrefix(l, "ANOTHER-ROUND"):
+			rep.Fail("C01-answer-for-another-round", "a request for round r (= head+1, round r stored between the request's reading of the head and the registration of its callback) was answered successfully with another round: "+l,
+				map[string]string{"scenario": "raw store wrapper: Last() reads head r-1, then round r is stored, then the head read is returned; PublicRand(r) registers its callback; round r+1 is stored", "observed": l})
+		case strings.HasPrefix(l, "STALE-UNRETURNED"):
+			rep.Fail("C14-call-timeout", "PublicRand for the next round did not return: "+l, l)
+		case strings.HasPrefix(l, "STALEHEAD"):
+			var sc string
+			var n, ex, rf int
+			if _, e := fmt.Sscanf(l, "STALEHEAD scheme=%s requests=%d exact=%d refused=%d", &sc, &n, &ex, &rf); e == nil {
+				rep.Evaluations += n
+				rep.DistinctNontrivial += n
+				rep.Distribution["stalehead/exact"] += ex
+				rep.Distribution["stalehead/refused"] += rf
+			}
+		}
+	}
 	scenario := "PublicRand(round last+1) pending, then Store().Put(last+1); Store().Put(last+2) back to back (one scheduler thread), on a real DrandDaemon with the memdb back-end"
 	code := 0
 	var ee *exec.ExitError
@@ -183,6 +201,7 @@ func runPendingChild(tier string) {
 	store := bp.VerifBeaconHandler().Store()
 
 	runConcurrent(ctx, dd, cfg, sch, tier)
+	runStaleHead(ctx, tier)
 
 	// one scheduler thread from here on: both beacons are dispatched before the waiter's worker runs
 	defer runtime.GOMAXPROCS(runtime.GOMAXPROCS(1))
